@@ -27,15 +27,15 @@ LEVEL_NOTE = ('Cell values are exactly representable doubles chosen to be unique
 RULE = ("cases: configurations (kind, shape, order supplied, unit, optional parts); executions: write + reads in both orders (+ memmap variants, + get_sed per model), one evaluation per "
         "cell-array comparison; non-trivial = distinct configurations with >= 2 wavelengths whose supplied order or read order requires a reversal, or with an optional part absent")
 ASSUMPTIONS = ["values are finite and positive", "astropy.io.fits round-trips float64 arrays exactly"]
-REQUIRED_CLASSES = ['sed', 'cube', 'convolved', 'supplied-wav-ascending', 'supplied-wav-descending', 'read-order-nu', 'read-order-wav', 'no-apertures', 'no-uncertainties',
+REQUIRED_CLASSES = ['read-arguments-by-position', 'single-precision-values-handed-over', 'sed', 'cube', 'convolved', 'supplied-wav-ascending', 'supplied-wav-descending', 'read-order-nu', 'read-order-wav', 'no-apertures', 'no-uncertainties',
                     'memmap-on', 'memmap-off', 'get_sed', 'unit-erg/cm2/s', 'unit-erg/s', 'unit-Jy', 'writer-vs-fits', 'fits-vs-reader', 'written-twice', 'other-family-unit-both-orders', 'cube-nu-consistent', 'earlier-extracted-seds-rechecked', 'file-overwritten-then-read']
 TIMEOUT = {'quick': 300, 'thorough': 1800}
 
 UNITS = ['mJy', 'Jy', 'erg / (cm2 s)', 'erg / s']
-AXES_SED = {'n_ap': [2, 0, 1, 5], 'n_wav': [3, 2, 7, 40], 'sup': ['wav-desc', 'wav-asc'], 'unit': UNITS, 'path': ['lib-lib', 'fits-lib', 'lib-fits']}
+AXES_SED = {'n_ap': [2, 0, 1, 5], 'n_wav': [3, 2, 7, 40], 'sup': ['wav-desc', 'wav-asc'], 'unit': UNITS, 'path': ['lib-lib', 'fits-lib', 'lib-fits'], 'dtype': ['f8', 'f4']}
 AXES_CUBE = {'n_models': [2, 1, 6], 'n_ap': [2, 0, 1, 5], 'n_wav': [3, 2, 7, 40], 'sup': ['wav-desc', 'wav-asc'], 'unit': UNITS, 'unc': [True, False],
-             'path': ['lib-lib', 'fits-lib', 'lib-fits']}
-AXES_CONV = {'n_models': [2, 1, 6], 'n_ap': [2, 0, 1, 5], 'unit': ['mJy', 'Jy'], 'path': ['lib-lib', 'fits-lib', 'lib-fits']}
+             'path': ['lib-lib', 'fits-lib', 'lib-fits'], 'dtype': ['f8', 'f4']}
+AXES_CONV = {'n_models': [2, 1, 6], 'n_ap': [2, 0, 1, 5], 'unit': ['mJy', 'Jy'], 'path': ['lib-lib', 'fits-lib', 'lib-fits'], 'dtype': ['f8', 'f4']}
 
 
 def setup(tier, seed):
@@ -75,6 +75,16 @@ def _cells(n_models, n_ap, n_wav, seedshift=0):
 def _wav(n_wav, sup):
     w = 0.5 * 1.7 ** np.arange(n_wav)          # increasing wavelengths, micron
     return w if sup == 'wav-asc' else w[::-1]
+
+
+def _dt(rec, case, a):
+    """values handed to the library in single precision (they are exactly representable): what was stored must still come back"""
+    if case.get('dtype', 'f8') == 'f4' and case['path'] != 'fits-lib':
+        rec.cls('single-precision-values-handed-over')
+        a32 = np.asarray(a, dtype=np.float32)
+        assert np.array_equal(a32.astype(float), np.asarray(a, float))
+        return a32
+    return a
 
 
 def _close(a, b):
@@ -141,8 +151,8 @@ def _sed(ctx, case, rec, d, key):
         s.nu = s.wav.to(u.Hz, equivalencies=u.spectral())
         if ap is not None:
             s.apertures = ap * u.au
-        s.flux = cells * uq
-        s.error = err * uq
+        s.flux = _dt(rec, case, cells) * uq
+        s.error = _dt(rec, case, err) * uq
         from mc.canon import canon
         _, e = _try(rec, 'sed-write', case, lambda: s.write(fn))
         rec.ev()
@@ -193,7 +203,12 @@ def _sed(ctx, case, rec, d, key):
     reads = {}
     for order in ('nu', 'wav'):
         rec.cls('read-order-' + order)
-        r, e = _try(rec, 'sed-read', case, lambda: SED.read(fn, unit_flux=uq, order=order))
+        if (n_ap + n_wav) % 2:
+            # the same call with every argument given by position, in the documented order
+            rec.cls('read-arguments-by-position')
+            r, e = _try(rec, 'sed-read', case, lambda: SED.read(fn, u.micron, u.Hz, uq, order))
+        else:
+            r, e = _try(rec, 'sed-read', case, lambda: SED.read(fn, unit_flux=uq, order=order))
         rec.ev()
         rec.trans()
         if e:
@@ -299,9 +314,9 @@ def _cube(ctx, case, rec, d, key):
         c.wav = wav * u.micron
         if ap is not None:
             c.apertures = ap * u.au
-        c.val = cells * uq
+        c.val = _dt(rec, case, cells) * uq
         if has_unc:
-            c.unc = err * uq
+            c.unc = _dt(rec, case, err) * uq
         _, e = _try(rec, 'cube-write', case, lambda: c.write(fn))
         rec.ev()
         rec.trans()
@@ -339,7 +354,11 @@ def _cube(ctx, case, rec, d, key):
         rec.cls('memmap-on' if memmap else 'memmap-off')
         for order in ('nu', 'wav'):
             rec.cls('read-order-' + order)
-            r, e = _try(rec, 'cube-read', case, lambda: SEDCube.read(fn, order=order, memmap=memmap))
+            if (case['n_models'] + case['n_wav'] + (1 if memmap else 0)) % 2:
+                rec.cls('read-arguments-by-position')
+                r, e = _try(rec, 'cube-read', case, lambda: SEDCube.read(fn, order, memmap))
+            else:
+                r, e = _try(rec, 'cube-read', case, lambda: SEDCube.read(fn, order=order, memmap=memmap))
             rec.ev()
             rec.trans()
             if e:
@@ -431,7 +450,7 @@ def _conv(ctx, case, rec, d, key):
         rec.nontriv(key)
     fn = os.path.join(d, 'conv.fits')
     if path in ('lib-lib', 'lib-fits'):
-        c = ConvolvedFluxes(wavelength=3.6 * u.micron, model_names=np.array(names), apertures=None if ap is None else ap * u.au, flux=cells * uq, error=err * uq)
+        c = ConvolvedFluxes(wavelength=3.6 * u.micron, model_names=np.array(names), apertures=None if ap is None else ap * u.au, flux=_dt(rec, case, cells) * uq, error=_dt(rec, case, err) * uq)
         _, e = _try(rec, 'conv-write', case, lambda: c.write(fn))
         rec.ev()
         rec.trans()
